@@ -3,9 +3,9 @@
 (* The observation file is one JSON object [schemas, ops, obs]:                                                       *)
 (*   schemas[si] = [defs, schema, dia]            declared schema (encode.py: bundle of the real document's schema)    *)
 (*   ops[opi]    = [params : Seq([loc, name, required, schema]), bodies : Seq([media, schema, required]), cfg, defs,   *)
-(*                  dia]                                                                                               *)
+(*                  dia, methods : Seq(STRING) documented for the path]                                                  *)
 (*   obs[i]      = [kind |-> "value", si, value, mode, steps, exempt]                         C03 value level          *)
-(*               | [kind |-> "case", prop, opi, c : [labels, parts, alt, hasBody, body, media, dup, methodDocumented,  *)
+(*               | [kind |-> "case", prop, opi, c : [labels, parts, alt, hasBody, body, media, dup, method,            *)
 (*                                                   exempt]]                                  C01 / C02 / C03 cases   *)
 (*               | [kind |-> "outcome", prop, opi, outcome, negOnly]                           C01 / C02 outcome rule  *)
 (* One state per observation.  Prints <<"DISAGREE", json [i, rule, detail]>> for every observation that breaks its   *)
